@@ -18,6 +18,9 @@ def _exact(ix, cls, f, e, depth=0):
         if not defs:
             return None if e.id in params else 'unbound name %s' % e.id
         for d in defs:
+            if _is_text_method(d) and isinstance(d.func.value, ast.Name) and d.func.value.id == e.id:
+                if e.id in params or len(defs) > 1:
+                    continue    # text = text.replace(...): exact iff the other definitions of the name are
             r = _exact(ix, cls, f, d, depth + 1)
             if r:
                 return r
@@ -48,6 +51,8 @@ def _exact(ix, cls, f, e, depth=0):
                 if why:
                     return why
             return None
+        if _is_text_method(e):
+            return _exact(ix, cls, f, e.func.value, depth + 1)
         if isinstance(e.func, ast.Attribute) and e.func.attr in ('getText',):
             return None
         if isinstance(e.func, ast.Attribute) and e.func.attr in ('literal', 'Identifier'):
@@ -58,6 +63,11 @@ def _exact(ix, cls, f, e, depth=0):
     if isinstance(e, ast.Attribute):
         return None
     return 'expression %s' % type(e).__name__
+
+
+def _is_text_method(e):
+    """str -> str methods keep the literal text exact"""
+    return isinstance(e, ast.Call) and isinstance(e.func, ast.Attribute) and e.func.attr in ('replace', 'strip', 'lower', 'upper', 'lstrip', 'rstrip')
 
 
 def exact_return(ix, cls, f):
